@@ -17,6 +17,7 @@ import tempfile
 
 import fw
 import c11_wire as W
+import wire
 import c11_tls as T
 import c11_quic as Q
 
@@ -449,7 +450,7 @@ def e2e_case(rng):
     """(keylog text, [(ts, frame)]) — a decryptable TLS connection, corrupted duplicates, UDP bystanders."""
     v6 = rng.random() < 0.5
     ver = rng.choice((12, 13))
-    conn = T.Conn(rng, v6=v6, cport=rng.randrange(30000, 60000),
+    conn = T.Conn(rng, v6=v6, cport=wire.client_port(rng, 30000, 60000),
                   exthdrs=((0,) if v6 and rng.random() < 0.2 else ()),
                   tcpopts=(b"\x01\x01\x08\x0a" + bytes(rng.getrandbits(8) for _ in range(8))) if rng.random() < 0.3 else b"")
     app = []
@@ -481,7 +482,7 @@ def e2e_case(rng):
     quic = rng.random() < 0.6
     if quic:                                            # a QUIC v1 connection next to it (UDP, IPv4 or IPv6)
         # QUIC sessions are opened by header bits, on ANY port: the server port is often not one of the listed TLS ports
-        qc = Q.QConn(rng, v6=(v6 if rng.random() < 0.7 else not v6), cport=rng.randrange(30000, 60000),
+        qc = Q.QConn(rng, v6=(v6 if rng.random() < 0.7 else not v6), cport=wire.client_port(rng, 30000, 60000),
                      sport=rng.choice([443, 4433, 8443, 50001]), t0=conn.frames[0].ts + 0.0005)
         qc.handshake()
         for i in range(rng.randrange(2, 6)):
